@@ -21,7 +21,7 @@ for f in "$SRC"/*.cpp; do
 done
 for p in "${pids[@]}"; do wait "$p" || { echo "BASELINE-OFF: compile failed"; exit 2; }; done
 g++ "${OBJS[@]}" -o "$SCRATCH/unittest" -pthread || { echo "BASELINE-OFF: link failed"; exit 2; }
-(cd "$SCRATCH" && ./unittest -r junit -o "$SCRATCH/junit.xml" >/dev/null 2>&1)
+(cd "$SCRATCH" && timeout 900 ./unittest -r junit -o "$SCRATCH/junit.xml" >/dev/null 2>&1)
 rc=$?
 python3 - "$SCRATCH/junit.xml" "$rc" <<'EOF'
 import sys, json, xml.etree.ElementTree as ET
